@@ -629,6 +629,11 @@ func genC01(r *Rng, tier string) []Case {
 		if i%25 == 0 {
 			pw = badText(rd)
 		}
+		if i%19 == 5 {
+			// passwords that look like something else: 32 hex digits (the text of an NT hash), an LM:NT pair, a hashcat line
+			pw = []byte([]string{"00000000000000000000000000000000", "31d6cfe0d16ae931b73c59d7e0c089c0", "31D6CFE0D16AE931B73C59D7E0C089C0",
+				"aad3b435b51404eeaad3b435b51404ee:31d6cfe0d16ae931b73c59d7e0c089c0", "$DCC2$10240#user#0123456789abcdef0123456789abcdef", "0123456789abcdef0123456789abcde"}[(i/19)%6])
+		}
 		if i%30 == 1 {
 			user = badText(rd)
 		}
